@@ -109,10 +109,17 @@ def gen_ops(rng, model, n, allow_scm=True, max_entries=40, hash_prob=0.5,
             ops.append(["write", p, fresh_tag(), rng.choice([0, 3, 64, 65, 700])])
         elif r < 0.56 and files:
             p = rng.choice(files)
-            ops.append(["rewrite_same_size", p, fresh_tag()])
+            # same size; in two of four variants the old mtime is restored as well (cp -p, touch -r,
+            # atomic replace by an equally sized file): only ctime / inode tell that the file changed
+            ops.append([rng.choice(["rewrite_same_size", "rewrite_same_size", "rewrite_keep_mtime", "swap_keep_mtime"]),
+                        p, fresh_tag()])
         elif r < 0.62 and every:
             p = rng.choice(every)
             if model.e[p] == "l":
+                if rng.random() < 0.5:
+                    ops.append(["relink_keep_mtime", p])
+                    if rng.random() < hash_prob:
+                        ops.append(["hash"])
                 continue
             ops.append(["chmod", p, rng.choice(MODES_D if model.e[p] == "d" else MODES_F)])
         elif r < 0.74 and every:
@@ -167,6 +174,19 @@ def _rm(path):
         for r, ds, fs in os.walk(path):
             os.chmod(r, 0o700)
         shutil.rmtree(path)
+
+def _restore_mtime(p, old):
+    """Give p the mtime it had before the modification.  The kernel moves ctime to "now";
+    make sure the stat data really differs from `old` (the contract of the property: every
+    modification changes the file's stat data) -- within one timer tick it might not."""
+    import time
+    for _ in range(200):
+        os.utime(p, ns=(old.st_atime_ns, old.st_mtime_ns), follow_symlinks=False)
+        st = os.lstat(p)
+        if (st.st_ctime_ns, st.st_ino, st.st_dev) != (old.st_ctime_ns, old.st_ino, old.st_dev):
+            return
+        time.sleep(0.002)
+    raise RuntimeError("cannot make stat data of %s differ" % p)
 
 def apply_op(root, op, clock):
     """Apply one op below root.  Returns False if the op was not applicable
@@ -237,6 +257,45 @@ def apply_op(root, op, clock):
                 f.write(content_bytes(tag, st.st_size))
             os.chmod(p, mode)
             touch(p)
+        elif kind in ("rewrite_keep_mtime", "swap_keep_mtime"):
+            _, rel, tag = op
+            p = P(rel)
+            if not os.path.isfile(p) or os.path.islink(p):
+                return False
+            st = os.lstat(p)
+            if st.st_size == 0:
+                return False
+            new = content_bytes(tag, st.st_size)
+            with open(p, "rb") as f:
+                if f.read() == new:
+                    return False
+            mode = stat.S_IMODE(st.st_mode)
+            if kind == "rewrite_keep_mtime":
+                os.chmod(p, mode | 0o600)
+                with open(p, "r+b") as f:
+                    f.write(new)
+                os.chmod(p, mode)
+            else:
+                writable_parent(p)
+                tmp = p + ".swap~"
+                with open(tmp, "wb") as f:
+                    f.write(new)
+                os.chmod(tmp, mode)
+                os.rename(tmp, p)
+            _restore_mtime(p, st)
+        elif kind == "relink_keep_mtime":
+            p = P(op[1])
+            if not os.path.islink(p):
+                return False
+            st = os.lstat(p)
+            old = os.readlink(p)
+            if not old:
+                return False
+            tgt = old[:-1] + ("y" if old[-1] != "y" else "z")
+            writable_parent(p)
+            os.unlink(p)
+            os.symlink(tgt, p)
+            _restore_mtime(p, st)
         elif kind == "chmod":
             _, rel, mode = op
             p = P(rel)
